@@ -24,6 +24,10 @@ type MRun struct {
 	Sets   []PSet        `json:"param_sets"`
 	Inputs [][][]float64 `json:"inputs"` // [block][input][t]
 	States [][]float64   `json:"states,omitempty"`
+	// Surplus: further parameter sets in the LAST columns of the parameter table that no cell of this run uses: the
+	// table's dimensions are found over all columns, the model is given only the first len(Sets) columns (ow-sim finds
+	// dimensions over all nodes of a model type and applies the parameters of one generation at a time)
+	Surplus []PSet `json:"surplus_param_sets,omitempty"`
 	// PadCells/PadT: output array larger than needed by this much
 	PadCells int `json:"pad_cells,omitempty"`
 	PadT     int `json:"pad_t,omitempty"`
@@ -176,9 +180,19 @@ func PrepareOn(m sim.TimeSteppingModel, r *MRun) (*Prepared, error) {
 	}
 	p := &Prepared{Model: m, Desc: m.Description(), Run: r}
 	p.Params = Arr2(FlattenParams(p.Desc, r.Sets))
-	dims := m.FindDimensions(p.Params)
-	if len(dims) > 0 {
-		m.InitialiseDimensions(dims)
+	if len(r.Surplus) > 0 {
+		all := append(append([]PSet{}, r.Sets...), r.Surplus...)
+		full := Arr2(FlattenParams(p.Desc, all))
+		dims := m.FindDimensions(full)
+		if len(dims) > 0 {
+			m.InitialiseDimensions(dims)
+		}
+		p.Params = full.Slice([]int{0, 0}, []int{full.Shape()[0], len(r.Sets)}, nil).(data.ND2Float64)
+	} else {
+		dims := m.FindDimensions(p.Params)
+		if len(dims) > 0 {
+			m.InitialiseDimensions(dims)
+		}
 	}
 	m.ApplyParameters(p.Params)
 	if r.States != nil {
